@@ -4,7 +4,7 @@ from propcfg.common import STD_TRUST
 CONFIG = {
     "props_modules": ["C04"],
     "level": "proof",
-    "tie": "Cert.check/checkLA accept the dumped automaton; LR.parse reports the same error lexeme and state as the real parser with recovery off; with recovery on the real parser's first error is at that lexeme and state",
+    "tie": "Cert.check/checkLA/checkVP accept the dumped automaton (checkVP for grammars whose rules are all productive); the real parser's error position equals the position a certified canonical LR(1) parser reports (Sp: the position the property prescribes); LR.parse reports the same error lexeme and state as the real parser with recovery off; with recovery on the real parser's first error is at that lexeme and state",
     "rule": "grammars and inputs as for C01 (classics + random grammars; all short strings, sampled sentences, mutants); every rejected input of length <= 8 is also parsed with CPCT+ recovery (parses slower than 450 ms are counted as inconclusive). non-trivial = grammar with a rejected input whose error is not at lexeme 0; distinct = distinct request line",
     "nontrivial": lambda req, im: any(" err " in l and l.split(" err ")[1].split(" ")[0] != "0" for l in im.get("I", [])),
     "trusted_base": STD_TRUST + ["the parser is driven through a lexeme-vector lexer, bypassing lrlex"],
@@ -16,6 +16,6 @@ MANIFEST = {
     "category": "proof",
     "design_ref": "DESIGN.md §5 C04",
     "technique": "Lean theorems over the LR driver model and the verified validator (certificate ⇒ the error is never premature, one error, no value) + comparison of error lexeme/state with the real parser, recovery off and on",
-    "text": "Theorems (Props/C04.lean) for every certified (check + checkLA) automaton and EVERY input: a rejected input yields exactly one error whose position is a lexeme index or the end of input (one_error_no_value); if the error is at lexeme i then the lexemes up to and including i are not a prefix of any sentence (error_not_premature), and an error at end of input means the input is not a sentence (error_at_end_not_sentence). The model's error lexeme and state are compared with the real parser on every generated rejected input, and with recovery on the real parser's first error must be at the same lexeme and state.",
-    "note": "Partial: the other half of the statement — everything before the error lexeme IS a prefix of a sentence (viable-prefix property, needs all rules productive) — is not yet a Lean theorem; it is implied for canonical LR(1)/Pager tables by the literature and is only observed here (model = implementation). The grammar quantifier is sampled. Trusted: Lean kernel, dump through the public API, orchestrator.",
+    "text": "Theorems (Props/C04.lean) for every certified automaton and EVERY input: a rejected input yields exactly one error whose position is a lexeme index or the end of input (one_error_no_value); if the error is at lexeme i then the lexemes up to and including i are not a prefix of any sentence (error_not_premature), and an error at end of input means the input is not a sentence (error_at_end_not_sentence) [these need check + checkLA]; the lexemes before the error ARE a prefix of a sentence (error_prefix_is_viable) [needs check + checkVP: closed states hold only items of the closure of their core, every rule productive — the property's hypothesis; no lookahead condition]; hence the position is determined by the language alone and any two certified automata of a grammar report it identically (error_position_unique). All three validators run on every dumped automaton within the hypothesis (conflict-free, no precedence-resolved cell, all rules productive); the prescribed position is computed by a canonical LR(1) parser that itself passed all three validators and compared with the real parser's. The model's error lexeme and state are compared with the real parser on every generated rejected input, and with recovery on the real parser's first error must be at the same lexeme and state.",
+    "note": "Both halves of the statement are theorems. The recovery-on clause (first error at the same lexeme) is compared per input, not proved (the recovering driver's first error is the plain driver's error by C07.recRun_shape only at the model level). Grammars outside the hypothesis (conflicts, precedence-resolved cells, unproductive rules) are counted in driver_counts and only compared with the model. The grammar quantifier is sampled. Trusted: Lean kernel, dump through the public API, orchestrator.",
 }
